@@ -593,6 +593,8 @@ def main(argv):
         broken.append(text)
 
     searched = 0
+    for b_ in broken[:8]:
+        log("[broken] " + b_[:600])
     if broken and not violation_lines:
         # search for a concrete failing input: more seeds, monitors on
         found = None
